@@ -18,6 +18,21 @@ def _terms_json(expr, subs):
     return out
 
 
+def _unbounded(v):
+    """a reported value that says 'no finite limit': an AccumBounds with an infinite end (sympy's answer for an oscillating
+    divergent sequence) or an expression of infinite magnitude such as oo*sign(...)"""
+    import sympy
+    try:
+        if v.has(sympy.nan):
+            return False
+        for a in sympy.preorder_traversal(v):
+            if isinstance(a, sympy.AccumBounds) and (a.min == -sympy.oo or a.max == sympy.oo):
+                return True
+        return bool(v.has(sympy.oo) or v.has(-sympy.oo) or v.has(sympy.zoo))
+    except Exception:
+        return False
+
+
 def after_loop(text, goals, subs=None, nmax=5, settings=None, extras_var=None, extras_third=False, extras_budget=20):
     import sympy
     _reset_settings(settings)
@@ -77,6 +92,8 @@ def after_loop(text, goals, subs=None, nmax=5, settings=None, extras_var=None, e
             g["after_loop_free_n"] = any(s.name == "n" for s in al2.free_symbols)
             if al2 in (sympy.oo, -sympy.oo, sympy.zoo):
                 g["after_loop"] = ("infinite", str(al2))
+            elif _unbounded(al2):
+                g["after_loop"] = ("divergent", str(al2)[:200])
             else:
                 g["after_loop"] = to_rational(al2)
             g["ok"] = True
@@ -112,7 +129,7 @@ def after_loop(text, goals, subs=None, nmax=5, settings=None, extras_var=None, e
                     v2 = sympy.sympify(val)
                     if subs:
                         v2 = v2.xreplace({s_: _rat(subs[s_.name]) for s_ in v2.free_symbols if s_.name in subs})
-                    if v2 in (sympy.oo, -sympy.oo, sympy.zoo):
+                    if v2 in (sympy.oo, -sympy.oo, sympy.zoo) or _unbounded(v2):
                         ex[f"{kind}{k}"] = ("infinite", str(v2))
                     else:
                         ex[f"{kind}{k}"] = to_rational(v2)
